@@ -73,8 +73,11 @@ def unreachable_leg(ck, S, singles):
                 meta.append((bad[0], pos, threads, labels, [x for x in (names[0], names[1])]))
     for (bad, pos, threads, labels, hn), sc, r in zip(meta, scs, runner.run_many(scs)):
         ck.evaluated()
-        if r.get('harness_error') or r.get('hang'):
-            raise common.Machinery('run with an unreachable target failed: %r' % (r.get('harness_error') or 'hang'))
+        if r.get('harness_error'):
+            raise common.Machinery('run with an unreachable target failed: %r' % r.get('harness_error'))
+        if r.get('hang'):
+            ck.violation('run-did-not-complete leg=run-with-an-unreachable-target', 'the run never ended (run with an unreachable target): a listed target was never scanned, or some wait has no bound', {'argv': sc['argv'] if isinstance(sc, dict) else None})
+            continue
         replay = {'unreachable': bad, 'position': pos, 'threads': threads, 'argv': sc['argv'], 'exit': r['exit'], 'stdout': r['stdout'][-3000:]}
         blocks = {}
         for b in multi.split_text(r['stdout']):
@@ -98,6 +101,53 @@ def unreachable_leg(ck, S, singles):
         if ok:
             ck.cov['traces_validated_against_impl'] += 1
             ck.nontrivial(('unreachable', bad, pos, threads))
+
+
+def exception_leg(ck):
+    """A scan that ends in an exception *after* its probes have edited the worker's rating table (here: the resolver fails for the
+    lookup of the connection-rate check), followed by another target on the same worker thread: the second target's result is its
+    single-target result."""
+    from harness import peers
+    def srv(bits):
+        return peers.ServerCfg(banner=b'SSH-2.0-OpenSSH_8.0', kexinit={'kex': ['diffie-hellman-group14-sha256', 'curve25519-sha256'], 'key': ['ssh-rsa', 'ssh-ed25519'],
+                                                                       'enc': ['aes128-ctr', 'chacha20-poly1305@openssh.com'], 'mac': ['hmac-sha2-256'], 'comp': ['none']},
+                               hostkeys={'ssh-rsa': peers.rsa_blob(bits), 'ssh-ed25519': peers.ed25519_blob()})
+    a, b = multi.ip_of(0), multi.ip_of(1)
+
+    def fail_for(host):
+        def setup(world):
+            world.resolve_fail_port0 = {host}
+        return setup
+    single = runner.run_one({'argv': ['-j', b], 'servers': {(b, 22): srv(4096)}})
+    if single.get('exit') not in (0, 2, 3):
+        raise common.Machinery('reference run failed: %r' % single.get('exit'))
+    ref = json.loads(single['stdout'])
+    for threads in (1, 2):
+        ck.evaluated()
+        r = runner.run_one({'argv': ['-j', '--threads', str(threads), '-T', '{tmp}/targets.txt'], 'servers': {(a, 22): srv(1024), (b, 22): srv(4096)},
+                            'files': {'targets.txt': '%s\n%s\n' % (a, b)}, 'setup': fail_for(a)})
+        if r.get('harness_error'):
+            raise common.Machinery('run failed: %r' % r.get('harness_error'))
+        if r.get('hang'):
+            ck.violation('run-did-not-complete leg=run', 'the run never ended (run): a listed target was never scanned, or some wait has no bound', {'argv': sc['argv'] if isinstance(sc, dict) else None})
+            continue
+        replay = {'argv': ['-j', '--threads', str(threads), '-T', 'targets.txt'], 'exit': r['exit'], 'stdout': r['stdout'][-3000:]}
+        if 'exception occurred while scanning' not in r['stdout']:
+            raise common.Machinery('the first target was expected to end in an exception (resolver fault during the rate check): %r' % r['stdout'][:300])
+        # the output is not one JSON array when a target failed (C08's finding): take the second target's document out of it
+        i = r['stdout'].rfind('{"additional_notes"')
+        j = r['stdout'].rfind('}')
+        try:
+            el = json.loads(r['stdout'][i:j + 1])
+        except ValueError:
+            ck.violation('isolation view=json channel=after-exception', 'no result for the target scanned after one that ended in an exception', replay)
+            continue
+        if el != ref:
+            ck.violation('isolation view=json channel=after-exception', 'the target scanned after one whose scan ended in an exception (%d thread(s)) differs from its single-target result at %s'
+                         % (threads, _json_diff(ref, el)[:3]), replay)
+        else:
+            ck.cov['traces_validated_against_impl'] += 1
+            ck.nontrivial(('after-exception', threads))
 
 
 def granular_leg(ck):
@@ -129,8 +179,11 @@ def granular_leg(ck):
             meta.append((order, threads))
     for (order, threads), sc, r in zip(meta, scs, runner.run_many(scs)):
         ck.evaluated()
-        if r.get('harness_error') or r.get('hang'):
-            raise common.Machinery('-g target-list run failed: %r' % (r.get('harness_error') or 'hang'))
+        if r.get('harness_error'):
+            raise common.Machinery('-g target-list run failed: %r' % r.get('harness_error'))
+        if r.get('hang'):
+            ck.violation('run-did-not-complete leg=-g-target-list-run', 'the run never ended (-g target-list run): a listed target was never scanned, or some wait has no bound', {'argv': sc['argv'] if isinstance(sc, dict) else None})
+            continue
         replay = {'order': order, 'threads': threads, 'argv': sc['argv'], 'exit': r['exit'], 'stdout': r['stdout'][-2000:]}
         # every single-target document must occur in the output as often as that server is listed, and nothing else
         out = r['stdout']
@@ -172,8 +225,11 @@ def ports_leg(ck, S, singles):
             meta.append((ports, dflt, threads, labels))
     for (ports, dflt, threads, labels), sc, r in zip(meta, scs, runner.run_many(scs)):
         ck.evaluated()
-        if r.get('harness_error') or r.get('hang'):
-            raise common.Machinery('mixed-port run failed: %r' % (r.get('harness_error') or 'hang'))
+        if r.get('harness_error'):
+            raise common.Machinery('mixed-port run failed: %r' % r.get('harness_error'))
+        if r.get('hang'):
+            ck.violation('run-did-not-complete leg=mixed-port-run', 'the run never ended (mixed-port run): a listed target was never scanned, or some wait has no bound', {'argv': sc['argv'] if isinstance(sc, dict) else None})
+            continue
         replay = {'lines': sc['files']['targets.txt'], 'argv': sc['argv'], 'exit': r['exit'], 'stdout': r['stdout'][-2500:]}
         dialled = sorted({'%s:%d' % (e['host'], e['port']) for e in r['events'] if e.get('ev') == 'connect' and 'host' in e})
         if dialled != sorted(labels):
@@ -265,8 +321,14 @@ def run(tier):
     for sc, m, r in zip(scs, meta, results):
         lst, k, order, js, pol, labels = m
         ck.evaluated()
-        if r.get('harness_error') or r.get('hang'):
-            raise common.Machinery('multi-target run failed: %r' % (r.get('harness_error') or 'hang (finish-order gate?)'))
+        if r.get('harness_error'):
+            raise common.Machinery('multi-target run failed: %r' % r.get('harness_error'))
+        if r.get('hang'):
+            # the harness lets the targets finish in a prescribed order; a listed target that is never scanned (or a wait without a
+            # bound) leaves the run waiting for ever
+            ck.violation('run-did-not-complete threads=%d' % k, 'list %r, %d thread(s), finish order %r: the run never ended - a listed target was never scanned, or some wait has no bound'
+                         % (lst, k, order), {'targets': lst, 'threads': k, 'finish_order': order, 'argv': sc['argv']})
+            continue
         ck.nontrivial((lst, k, order, js, pol))
         replay = {'targets': lst, 'threads': k, 'finish_order': order, 'json': js, 'policy': pol, 'argv': sc['argv'], 'exit': r['exit'],
                   'stdout': r['stdout'][-4000:]}
@@ -309,6 +371,7 @@ def run(tier):
     ports_leg(ck, S, singles)
     unreachable_leg(ck, S, singles)
     granular_leg(ck)
+    exception_leg(ck)
     verdicts = multi.validate(ck, traces)
     for m, tr, (ok, info) in zip(tmeta, traces, verdicts):
         if ok:
